@@ -3,13 +3,16 @@ config_service.py, deep/__init__.py, utils.py, poll/poll.py, processor/frame_col
 
 Translated to Lean (harness/pylean_res.py on top of pylean):
   the module-level functions of deep.config (IN_APP_INCLUDE, IN_APP_EXCLUDE: splitting of the environment text, the
-  exec-prefix entry), ConfigService.is_app_frame (exclude loop, include loop, app root, in that order, with the matched
+  exec-prefix entry), ConfigService.__getattribute__ STATEMENT BY STATEMENT (`getAttribute`: the try/except
+  AttributeError around the object's own attribute, the custom-dict test and read, the `attr is None` fall-through to
+  the deep.config module attribute (hasattr/getattr), the DEEP_<name> environment read with its two returns, the
+  callable test and call, the final return — in the order and nesting the source has them),
+  ConfigService.is_app_frame (exclude loop, include loop, app root, in that order, with the matched
   prefix), FrameCollector.parse_short_name.
 Extracted as tables: every module-level setting of deep.config with its environment variable and default, the other
   module attribute names, the attribute names a ConfigService has of its own, the documented keys of docs/config/config.md.
 Checked shapes (Untranslatable when gone; the Lean text next to each is the reading of exactly that shape):
-  ConfigService.__init__ / __getattribute__ (own attribute -> custom (non-None) -> deep.config attribute -> DEEP_<name>
-  -> None; callables called), the APP_ROOT amendment of deep.start, RepeatedTimer.__init__ (whether the interval is
+  ConfigService.__init__ (the dict given is stored as `self.__custom`, `None` becomes `{}`), the APP_ROOT amendment of deep.start, RepeatedTimer.__init__ (whether the interval is
   coerced with float()), RepeatedTimer._time, LongPoll.start (timer built from config.POLL_TIMER).
 """
 import ast
@@ -28,29 +31,6 @@ UTILS = 'src/deep/utils.py'
 POLL = 'src/deep/poll/poll.py'
 FC = 'src/deep/processor/frame_collector.py'
 DOC = 'docs/config/config.md'
-
-GETATTRIBUTE_TEMPLATE = '''
-attr = None
-try:
-    attr = super().__getattribute__(name)
-except AttributeError:
-    if self.__custom is not None and name in self.__custom:
-        attr = self.__custom[name]
-    if attr is None:
-        from deep import config
-        has_attr = hasattr(config, name)
-        if not has_attr:
-            from_env = os.getenv("DEEP_%s" % name, None)
-            if from_env is None:
-                logging.warning("Unrecognised config key: %s", name)
-                return None
-            else:
-                return from_env
-        attr = getattr(config, name, None)
-    if callable(attr):
-        return attr()
-return attr
-'''
 
 INIT_TEMPLATE = '''
 if custom is None:
@@ -74,25 +54,19 @@ cfg = ConfigService(config)
 MODULE_DUNDERS = ['__builtins__', '__cached__', '__doc__', '__file__', '__loader__', '__name__', '__package__', '__path__',
                   '__spec__']
 
-LOOKUP_LEAN = '''/-- `ConfigService(custom).<name>` in an interpreter started under `env` — reading of the checked shape of
-    `__getattribute__`: an attribute the object has of its own wins (opaque here); else the custom dict when it has
-    the name with a value other than `None`; else the `deep.config` module attribute when there is one; else
-    `DEEP_<name>` from the environment, returned as it is; else `None`.  A callable found in the custom dict or the
-    module is called. -/
+LOOKUP_LEAN = '''/-- `ConfigService(custom).<name>` in an interpreter started under `env`: the translated `__getattribute__` on the
+    object `ConfigService.__init__` builds (checked shape: the dict given is stored as `self.__custom`, `None`
+    becomes `{}` — so `self.__custom` is never `None`). -/
 def lookup (custom : List (String × CVal)) (env : Env) (execPrefix : String) (name : String) : CVal :=
-  if ownNames.contains name then .other ("own attribute " ++ name) else
-  let attr := match custom.lookup name with
-    | some v => v
-    | none => CVal.none
-  if attr.isNone then
-    match moduleValue env execPrefix name with
-    | none =>
-      match env.lookup ("DEEP_" ++ name) with
-      | none => CVal.none
-      | some s => .str s
-    | some v => callIt v
-  else callIt attr
+  getAttribute (some custom) env execPrefix name
 '''
+
+OWN_LEAN = '''/-- `super().__getattribute__(name)`: `some` = the object has the attribute of its own (value opaque here),
+    `none` = AttributeError -/
+def ownAttr (name : String) : Option CVal :=
+  if ownNames.contains name then some (.other ("own attribute " ++ name)) else none
+'''
+
 
 START_LEAN = '''/-- the custom dict `deep.start(config)` hands to `ConfigService` — reading of the checked shape: when the dict has
     no APP_ROOT entry one is added, `DEEP_APP_ROOT` when set and non-empty, else the calculated root `calcRoot`. -/
@@ -158,6 +132,96 @@ def append_hook(tr, s, rest, k):
         x = tr.names.get(s.value.func.value.id, s.value.func.value.id)
         return f'let {x} := (CVal.append {x} {tr.expr(s.value.args[0])})\n{tr.block(rest, k)}'
     return None
+
+
+class GetAttrTr(CfgTr):
+    """ConfigService.__getattribute__: CVal-valued, `self.__custom` is `custom : Option (List (String × CVal))`,
+    the deep.config module is `moduleValue env execPrefix`, the object's own attributes are `ownAttr`."""
+
+    def e_Call(self, n):
+        f = ast.unparse(n.func)
+        if f == 'os.getenv':
+            # os.getenv(<text expression>, None)
+            if len(n.args) != 2 or n.keywords or not (isinstance(n.args[1], ast.Constant) and n.args[1].value is None):
+                raise Untranslatable('os.getenv call: ' + ast.unparse(n))
+            return f'(getenv env {self.expr(n.args[0])})'
+        if f in ('hasattr', 'getattr'):
+            if n.keywords or not n.args or not isinstance(n.args[0], ast.Name) or n.args[0].id != self.module_name \
+                    or len(n.args) < 2 or ast.unparse(n.args[1]) != 'name':
+                raise Untranslatable(f'{f} call: ' + ast.unparse(n))
+            if f == 'hasattr' and len(n.args) == 2:
+                return '(Option.isSome (moduleValue env execPrefix name))'
+            if f == 'getattr' and len(n.args) == 3:
+                return f'(Option.getD (moduleValue env execPrefix name) {self.expr(n.args[2])})'
+            raise Untranslatable(f'{f} call: ' + ast.unparse(n))
+        if f == 'callable' and len(n.args) == 1 and not n.keywords:
+            return f'(CVal.isCallable {self.expr(n.args[0])})'
+        if isinstance(n.func, ast.Name) and not n.args and not n.keywords and n.func.id in self.locals_called:
+            return f'(CVal.call {self.expr(n.func)})'
+        return super().e_Call(n)
+
+    def e_BinOp(self, n):
+        # "<text>%s<text>" % <text expression>
+        if isinstance(n.op, ast.Mod) and isinstance(n.left, ast.Constant) and isinstance(n.left.value, str) \
+                and n.left.value.count('%') == 1 and n.left.value.count('%s') == 1 and not isinstance(n.right, ast.Tuple):
+            pre, post = n.left.value.split('%s')
+            t = self.expr(n.right)
+            if pre:
+                t = f'{lean_str(pre)} ++ {t}'
+            if post:
+                t = f'{t} ++ {lean_str(post)}'
+            return f'({t})'
+        return super().e_BinOp(n)
+
+
+def getattr_hook(tr, s, rest, k):
+    if isinstance(s, ast.Try):
+        # try: x = super().__getattribute__(name)   except AttributeError: <handler>
+        if (len(s.body) == 1 and isinstance(s.body[0], ast.Assign) and len(s.body[0].targets) == 1
+                and isinstance(s.body[0].targets[0], ast.Name)
+                and ast.unparse(s.body[0].value) == 'super().__getattribute__(name)'
+                and len(s.handlers) == 1 and s.handlers[0].type is not None
+                and ast.unparse(s.handlers[0].type) == 'AttributeError' and s.handlers[0].name is None
+                and not s.orelse and not s.finalbody):
+            x = s.body[0].targets[0].id
+            after = tr.block(rest, k)
+            h = tr.block(list(s.handlers[0].body), after)
+            return (f'match ownAttr name with\n| some {x} =>\n{_ind(after)}\n| none =>\n{_ind(h)}')
+        raise Untranslatable('try statement of __getattribute__: ' + ast.unparse(s)[:80])
+    if isinstance(s, ast.ImportFrom):
+        # from deep import config  — names the module object the hasattr/getattr calls are about
+        if s.module == 'deep' and s.level == 0 and len(s.names) == 1 and s.names[0].name == 'config':
+            tr.module_name = s.names[0].asname or 'config'
+            return tr.block(rest, k)
+        raise Untranslatable('import in __getattribute__: ' + ast.unparse(s))
+    return None
+
+
+def _ind(t):
+    import textwrap
+    return textwrap.indent(t, '  ')
+
+
+def getattribute_function(fdef):
+    if [a.arg for a in fdef.args.args] != ['self', 'name'] or fdef.args.vararg or fdef.args.kwarg \
+            or fdef.args.kwonlyargs:
+        raise Untranslatable('__getattribute__ signature')
+    tr = GetAttrTr(none='CVal.none', stmt_hooks=[getattr_hook],
+                   subst={'self.__custom is not None': '(Option.isSome custom)',
+                          'self.__custom is None': '(Option.isNone custom)',
+                          'name in self.__custom': '(dictHas custom name)',
+                          'name not in self.__custom': '(!(dictHas custom name))',
+                          'self.__custom[name]': '(dictGet custom name)'})
+    tr.module_name = None
+    # locals that are called without arguments (`attr()`): every local the body assigns
+    from pylean_res import assigned_names
+    tr.locals_called = set(assigned_names(strip_doc(fdef.body)))
+    return ('/-- `ConfigService.__getattribute__(self, name)`, statement by statement.  `custom` = `self.__custom`\n'
+            '    (`none` = Python `None`), `ownAttr` = `super().__getattribute__` (`none` = AttributeError),\n'
+            '    `moduleValue env execPrefix` = the attributes of the `deep.config` module imported under `env`,\n'
+            '    `getenv env` = `os.getenv`; `CVal.isCallable` / `CVal.call` = `callable(x)` / `x()`. -/\n' +
+            tr.function(fdef, 'def getAttribute (custom : Option (List (String × CVal))) (env : Env) '
+                              '(execPrefix : String) (name : String) : CVal'))
 
 
 def module_function(fdef):
@@ -236,14 +300,15 @@ def moduleValue (env : Env) (execPrefix : String) (name : String) : Option CVal 
         if isinstance(s, ast.Assign) and isinstance(s.targets[0], ast.Attribute):
             a = s.targets[0].attr
             own.append('_ConfigService' + a if a.startswith('__') else a)
-    if not same_shape(find_def(svc, 'ConfigService.__getattribute__'), GETATTRIBUTE_TEMPLATE):
-        raise Untranslatable('ConfigService.__getattribute__ changed shape')
+    ga = find_def(svc, 'ConfigService.__getattribute__')
     if not same_shape(find_def(svc, 'ConfigService.__setattr__'), 'super().__setattr__(name, value)'):
         raise Untranslatable('ConfigService.__setattr__ changed shape')
     # what every object / class instance has besides (C19-2: the lookup chain is only reached for other names)
     own += sorted(set(dir(object)) | {'__dict__', '__module__', '__weakref__', '__doc__', '__annotations__'})
     parts.append('/-- attribute names a ConfigService object has of its own (methods, properties, instance attributes) -/\n'
                  'def ownNames : List String := [' + ', '.join(lean_str(o) for o in sorted(set(own))) + ']\n')
+    parts.append(OWN_LEAN)
+    parts.append(getattribute_function(ga))
     parts.append(LOOKUP_LEAN)
 
     # ---- is_app_frame
